@@ -44,7 +44,10 @@ func (w *ResponseWriter) Write(bytes []byte) (int, error) {
 
 func (w *ResponseWriter) WriteHeader(code int) {
 	w.Origin.WriteHeader(code)
-	w.Status = code
+	// an informational 1xx response (other than 101) is not the status of the response: the final one follows
+	if code >= 200 || code == http.StatusSwitchingProtocols {
+		w.Status = code
+	}
 }
 
 // Flush implements the standard http.Flusher interface.
